@@ -225,6 +225,16 @@ def _num_eval(e, env=None):
     raise ValueError(norm_src(e))
 
 
+def _call_arg(u, call, pos, name):
+    """the argument of a call of a generator of this module, given positionally or by keyword"""
+    if len(call.args) > pos:
+        return call.args[pos]
+    for k in call.keywords:
+        if k.arg == name:
+            return k.value
+    return None
+
+
 def sizes_and_rotations(pm, ctx, u):
     import math
     f = u.func("gstm")
@@ -233,7 +243,9 @@ def sizes_and_rotations(pm, ctx, u):
     stc = [c for c in ast.walk(f) if isinstance(c, ast.Call) and call_name(c) == "multivariate_student_t"]
     site = "gstm: the two parts add up to n"
     try:
-        a, b = gm[0].args[0], stc[0].args[0]
+        a, b = _call_arg(u, gm[0], 0, "n"), _call_arg(u, stc[0], 0, "n")
+        if a is None or b is None:
+            raise IndexError("n argument")
         bad = None
         for n in range(4, 21):
             env = {"n": n}
@@ -330,8 +342,8 @@ def gstm_labels(pm, ctx, u):
             if lo is not None and hi is not None:
                 return list(range(lo, hi))
         return None
-    k_student = row_index(st_call[0].args[1]) if len(st_call[0].args) > 1 else None
-    rows_gauss = row_range(gm_call[0].args[1]) if len(gm_call[0].args) > 1 else None
+    k_student = row_index(_call_arg(u, st_call[0], 1, "loc")) if _call_arg(u, st_call[0], 1, "loc") is not None else None
+    rows_gauss = row_range(_call_arg(u, gm_call[0], 1, "loc")) if _call_arg(u, gm_call[0], 1, "loc") is not None else None
     # the label constant: y = concatenate([y_gaussian, np.ones(n_student) * c])
     ys = [s_ for s_ in f.body if isinstance(s_, ast.Assign) and isinstance(s_.targets[0], ast.Name) and s_.targets[0].id == "y"]
     label = None
